@@ -29,6 +29,7 @@ CONSTANTS Log,            \* set of offsets present in the partition
           MaxDepth
 
 EARLIEST == -2
+BAD == -2          \* (as the last element of a fetch window)
 LATEST == -1
 COMMITTED == -101
 Range(f) == {f[i] : i \in DOMAIN f}
@@ -67,6 +68,7 @@ FailStart(st) == IF st.s.startD = "pending" THEN Act([s |-> [st.s EXCEPT !.start
 RECURSIVE Process(_), ProcDone(_, _), FetchReply(_, _), CommitAndStop(_), Deliver(_, _, _)
 
 \* ---------------------------------------------------------------- fetching
+Exhausted(s) == s.maxAttempts # 0 /\ s.acount >= s.maxAttempts
 DoFetch(st) ==
     LET s == st.s IN
     IF s.req # "none" THEN st
@@ -179,12 +181,16 @@ ProcDone(st, ok) ==
     IN \* ... and a shutdown that was waiting for the processor continues now
        IF s.shutWait /\ x2.s.startD # "none" THEN CommitAndStop(St([x2.s EXCEPT !.shutWait = FALSE], x2.out)) ELSE x2
 
-FetchReply(st, w) ==
-    \* w: the offsets of the messages in the reply (the consumer skips those below its fetch offset)
-    LET s == st.s IN
-    IF s.block THEN St([s EXCEPT !.parked = <<w>>, !.ridx = 1, !.acount = 1], st.out)
+FetchReply(st, w0) ==
+    \* w0: the offsets of the messages in the reply (the consumer skips those below its fetch offset); a last element
+    \* BAD stands for an entry whose decoding raises: what precedes it is delivered and the position advanced past it,
+    \* then the reply is handled as a failed fetch
+    LET s == st.s
+        bad == w0 # <<>> /\ w0[Len(w0)] = BAD
+        w == IF bad THEN SubSeq(w0, 1, Len(w0) - 1) ELSE w0 IN
+    IF s.block THEN St([s EXCEPT !.parked = <<w0>>, !.ridx = 1, !.acount = 1], st.out)
     ELSE IF s.startD = "fired" THEN St([s EXCEPT !.req = "none", !.ridx = 1, !.acount = 1], st.out)
-    ELSE IF w = <<-1>>
+    ELSE IF w0 = <<-1>>
     THEN \* not even one complete message fits the buffer: grow it, or give up at the maximum; never skip
          IF s.buf < MaxBuf THEN RetryFetch(St([s EXCEPT !.req = "none", !.ridx = 1, !.acount = 1, !.buf = @ + 1], st.out), TRUE)
          ELSE FailStart(St([s EXCEPT !.req = "none", !.ridx = 1, !.acount = 1], st.out))
@@ -192,10 +198,11 @@ FetchReply(st, w) ==
              fo2 == IF msgs = <<>> THEN s.fo ELSE msgs[Len(msgs)] + 1
              s1 == [s EXCEPT !.req = "none", !.ridx = 1, !.acount = 1, !.fo = fo2]
              x1 == IF msgs # <<>> THEN Process(St([s1 EXCEPT !.block = TRUE, !.todo = msgs], st.out)) ELSE St(s1, st.out)
-         IN RetryFetch(x1, TRUE)
+         IN IF ~bad THEN RetryFetch(x1, TRUE)
+            ELSE IF x1.s.startD = "fired" THEN x1
+            ELSE IF Exhausted(x1.s) THEN FailStart(x1) ELSE RetryFetch(x1, FALSE)
 
 \* ---------------------------------------------------------------- events
-Exhausted(s) == s.maxAttempts # 0 /\ s.acount >= s.maxAttempts
 
 Possible(s, e) ==
     CASE e.a = "Start"        -> s.startD = "none"
@@ -207,6 +214,8 @@ Possible(s, e) ==
       [] e.a = "OFetchDone"   -> s.req = "ofetch"
       [] e.a = "OFetchErr"    -> s.req = "ofetch"
       [] e.a = "FetchDone"    -> s.req = "fetch" /\ s.parked = <<>>
+                                 \* (a reply that fails to decode is not scheduled while it would be parked)
+                                 /\ (e.w # <<>> /\ e.w[Len(e.w)] = BAD /\ e.w # <<-1>> => ~s.block)
       [] e.a = "FetchErr"     -> s.req = "fetch" /\ s.parked = <<>>
       [] e.a = "ProcDone"     -> s.procPending /\ ~SyncProc
       [] e.a = "RetryFire"    -> s.retry
@@ -300,6 +309,7 @@ Windows(fo) ==
     {SubSeq(Before(fo), Len(Before(fo)) - p + 1, Len(Before(fo))) \o SubSeq(After(fo), 1, k) :
         p \in 0..(IF Len(Before(fo)) < 1 THEN Len(Before(fo)) ELSE 1), k \in 0..(IF Len(After(fo)) < 3 THEN Len(After(fo)) ELSE 3)}
     \cup {<<-1>>}
+    \cup {SubSeq(After(fo), 1, k) \o <<BAD>> : k \in 0..(IF Len(After(fo)) < 2 THEN Len(After(fo)) ELSE 2)}
 EvApp == {[a |-> "Start", x |-> p, w |-> <<>>, k |-> ""] : p \in {EARLIEST, LATEST, COMMITTED, LogStart, LogStart + 1}}
          \cup {[a |-> a, x |-> 0, w |-> <<>>, k |-> ""] : a \in {"Stop", "Shutdown", "RetryFire", "CommitRetry", "Tick", "OffsetsErr", "OFetchErr"}}
          \cup {[a |-> "OffsetsDone", x |-> o, w |-> <<>>, k |-> ""] : o \in {LogStart, LogEnd}}
